@@ -82,6 +82,14 @@ ApiIlisOK(o) ==
     /\ {<<t[1], t[2], t[3]>> : t \in {t \in Rng(o.api_ilis) : t[1] # "~"}} = used
     /\ Cardinality({k \in DOMAIN o.api_ilis : o.api_ilis[k][1] = "~"}) = nprop
     /\ \A k \in DOMAIN o.api_ilis : o.api_ilis[k][1] = "~" => o.api_ilis[k][2] = "proposed"
+    \* wn.ilis(status=s): the entries of that status, no others
+    /\ \A q \in Rng(o.ilis_by_status) :
+          /\ {<<t[1], t[2], t[3]>> : t \in {t \in Rng(q[2]) : t[1] # "~"}} = {t \in used : t[2] = q[1]}
+          /\ Cardinality({k \in DOMAIN q[2] : q[2][k][1] = "~"}) = (IF q[1] = "proposed" THEN nprop ELSE 0)
+    \* Wordnet.ili(id): that entry, wn.Error for an unknown id
+    /\ \A q \in Rng(o.ilis_by_id) :
+          IF \E t \in used : t[1] = q[1] THEN q[2] = "ok" /\ <<q[3], q[4], q[5]>> \in used
+          ELSE q[2] = "err"
 StructOK(o) == LET st == ObsSt(o) IN
   NoDuplicates(st) /\ ExtHasBase(st) /\ BaseFirst(st) /\ LinksInStep(st)
   /\ LookupsCover(st) /\ IlisCover(st) /\ IliIdsUnique(st)
